@@ -64,10 +64,11 @@ TrVal(d, eq, t) == LET x == d[<<eq.lhs, t>>] prev == d[<<eq.lhs, t - 1>>] IN
 Holds(d, eq, t) == LET a == TrVal(d, eq, t) b == RhsRes(d, eq, t) IN a # NaN /\ b # NaN /\ a = b
 
 \* ---- plans -------------------------------------------------------------------------------------
-\* plan[<<lhs, t>>] = NoPlan or [tr |-> plan transform, when_data |-> BOOLEAN]; the transform's data are
+\* plan[<<lhs, t>>] = NoPlan or [tr |-> plan transform, when_data |-> BOOLEAN, sh |-> shift of the transform]; the transform's data are
 \* in d under the documented name (x, log_x, diff_x, diff_log_x, roc_x, pct_x)
 PlanName(ptr, n) == IF ptr = "none" THEN n ELSE ptr \o "_" \o n
-Implied(d, n, ptr, t) == LET p == d[<<PlanName(ptr, n), t>>] prev == d[<<n, t - 1>>] IN
+\* sh: the shift of the plan transform (default -1): the change is taken against the value sh periods away
+Implied(d, n, ptr, t, sh) == LET p == d[<<PlanName(ptr, n), t>>] prev == d[<<n, t + sh>>] IN
     IF p = NaN THEN NaN
     ELSE CASE ptr = "none"     -> p
            [] ptr = "log"      -> IF IsI(p) THEN EP(p[2]) ELSE NaN
@@ -78,12 +79,12 @@ Implied(d, n, ptr, t) == LET p == d[<<PlanName(ptr, n), t>>] prev == d[<<n, t - 
 
 Exogenized(d, plan, eq, t) ==
     /\ ~eq.identity /\ plan[<<eq.lhs, t>>] # NoPlan
-    /\ ~(plan[<<eq.lhs, t>>].when_data /\ Implied(d, eq.lhs, plan[<<eq.lhs, t>>].tr, t) = NaN)
+    /\ ~(plan[<<eq.lhs, t>>].when_data /\ Implied(d, eq.lhs, plan[<<eq.lhs, t>>].tr, t, plan[<<eq.lhs, t>>].sh) = NaN)
 
 \* ---- one step -----------------------------------------------------------------------------------
 SimStep(d, eq, t)  == [d EXCEPT ![<<eq.lhs, t>>] = Level(d, eq, t, RhsRes(d, eq, t))]
 ExogStep(d, plan, eq, t) ==
-    LET d1 == [d EXCEPT ![<<eq.lhs, t>>] = Implied(d, eq.lhs, plan[<<eq.lhs, t>>].tr, t)]
+    LET d1 == [d EXCEPT ![<<eq.lhs, t>>] = Implied(d, eq.lhs, plan[<<eq.lhs, t>>].tr, t, plan[<<eq.lhs, t>>].sh)]
         a  == TrVal(d1, eq, t)  b == Rhs(d1, eq, t) IN
     [d1 EXCEPT ![<<ResName(eq.lhs), t>>] = IF a = NaN \/ b = NaN THEN NaN ELSE IV(a - b)]
 StepData(d, plan, eq, t) == IF Exogenized(d, plan, eq, t) THEN ExogStep(d, plan, eq, t) ELSE SimStep(d, eq, t)
